@@ -18,7 +18,7 @@ EXPLANATION = (
     "the cap by the very Irr that is returned. C13.c (index spaces): Schedule is built on ClockStruct.time_span and read "
     "at the time-step counter; SMT is read at int(growth_stage)-1 and growth_stage is set to 1 on the first day of a "
     "season before it is used. C13.d: each strategy's parameter is read only inside that strategy's branch. C13.e: the daily schedule is aligned with the simulation days by label; a day offset used as an array position "
-    "must be checked against 0 and the length (negative offsets wrap). C13.f: the interval day test is (dap - 1) % interval == 0 (normal form). C13.g: the net-irrigation refill uses each layer's own threshold (= C04.e). C13.h: the growth-stage lengths of compute_crop_calendar are derived by the same expressions in the calendar-day and the degree-day branch (modulo the CD suffix) and the degree-day branch reads no calendar-day parameter - the end of stage 1 selects the threshold of the soil-moisture strategy. C13.i: the daily schedule array is built from the schedule's Depth column by name (or zeros). C13.j (= C07.l; what 'in season' means for C13.a): the step sets growing_season = True only under planting date reached, harvest date not reached, crop not mature and crop not dead (control dependences, tests on locals expanded) - a season that goes on after the crop has died keeps irrigating a field whose harvest is already reported. NOT decided: "
+    "must be checked against 0 and the length (negative offsets wrap). C13.f: the interval day test is (dap - 1) % interval == 0 (normal form). C13.g: the net-irrigation refill uses each layer's own threshold (= C04.e). C13.h: the growth-stage lengths of compute_crop_calendar are derived by the same expressions in the calendar-day and the degree-day branch (modulo the CD suffix) and the degree-day branch reads no calendar-day parameter - the end of stage 1 selects the threshold of the soil-moisture strategy. C13.i: the daily schedule array is built from the schedule's Depth column by name (or zeros). C13.j (= C07.l; what 'in season' means for C13.a): the step sets growing_season = True only under planting date reached, harvest date not reached, crop not mature and crop not dead (control dependences, tests on locals expanded) - a season that goes on after the crop has died keeps irrigating a field whose harvest is already reported. C13.k: the net-irrigation requirement returned by transpiration is accumulated from per-compartment terms that are negative for compartments wetter than their critical content; every such accumulation is control dependent on a test `total > 0` whose total is the sum of the very same terms (same polynomial normal form, in the function itself or in a called repository function), or on a test of the term itself - the trigger on the rounded root-zone averages alone lets a slightly negative requirement through. C13.l (T-TIME, time units): below the daily step no addition, subtraction or ordering comparison combines calendar days (dap, delayed_cds, age days, CD-suffixed stages) with growing degree days (gdd_cum, delayed_gdds, gdd) under either calendar type, the unsuffixed crop stages reading as days under CalendarType 1 and as degree days under 2; a quantity of a fixed unit is never assigned a value of the other (the growth stage that selects the soil-moisture threshold is computed from such a time). NOT decided: "
     "the ((dap-1) % k), the threshold comparison and the refill amount (numeric).")
 
 
@@ -239,10 +239,110 @@ def rule_h(chk, prog):
     chk.floor("C13.h", len(twins), 4, "stage lengths derived in both calendar branches")
 
 
+def rule_k(chk, prog):
+    """C13.k (net-irrigation mode reports a non-negative daily requirement): in transpiration the returned net requirement is accumulated from
+    per-compartment terms `RootFact * (critical content - content) * 1000 * dz`, which are negative for compartments wetter than the critical
+    content. Every accumulation of a term that is not non-negative by its own guard is control dependent on a test `<total> > 0`, where
+    <total> is the sum of the very same terms: a call of a repository function whose returned value accumulates a term with the same
+    polynomial normal form (object prefixes dropped), or the term itself. The trigger `thRZ.Act < thCrit` alone compares rounded root-zone
+    averages and lets a slightly negative total through (F52)."""
+    from .. import affine as A
+    from ..rdef import flow_of, ENTRY
+    tr = prog.find_func("transpiration")
+    flow = flow_of(tr)
+    cfg = flow.cfg
+    where = f"{tr.module}:{tr.qualname}"
+    chk.fn(tr.key)
+    rets = [r for r in walk_no_nested(tr.node) if isinstance(r, ast.Return) and isinstance(r.value, ast.Tuple)]
+    # the net requirement: the returned local the step unpacks into the net-irrigation local (last element of the tuple)
+    if not rets or not isinstance(rets[0].value.elts[-1], ast.Name):
+        raise AnalysisError("transpiration: the returned net-irrigation requirement is not a plain local")
+    R = rets[0].value.elts[-1].id
+
+    def atom(e):
+        if isinstance(e, ast.Subscript):
+            base = e.value.attr if isinstance(e.value, ast.Attribute) else (e.value.id if isinstance(e.value, ast.Name) else None)
+            return f"{base}[{norm(e.slice)}]" if base else None
+        if isinstance(e, ast.Attribute):
+            return e.attr
+        return None
+
+    def nf(e, fi, at, depth=0):
+        fl = flow_of(fi)
+        def subst(nm):
+            if depth > 3 or at is None:
+                return None
+            ds = [d for d in fl.defs_reaching(nm.id, at) if d != ENTRY]
+            if len(ds) == 1 and isinstance(fl.cfg.nodes[ds[0]].ast, ast.Assign) and isinstance(fl.cfg.nodes[ds[0]].ast.targets[0], ast.Name):
+                v = fl.cfg.nodes[ds[0]].ast.value
+                if isinstance(v, ast.BinOp):
+                    return v
+            return None
+        return A.NF(subst=subst, atom_name=atom).nf(e)
+
+    def term_of(a, fi):
+        """the term t of an accumulation `X = X + t`"""
+        v = a.value
+        if isinstance(a, ast.AugAssign) and isinstance(a.op, ast.Add):
+            return a.value
+        if isinstance(v, ast.BinOp) and isinstance(v.op, ast.Add) and isinstance(v.left, ast.Name) and v.left.id == a.targets[0].id:
+            return v.right
+        return None
+
+    n = 0
+    for a in walk_no_nested(tr.node):
+        if not (isinstance(a, ast.Assign) and len(a.targets) == 1 and isinstance(a.targets[0], ast.Name) and a.targets[0].id == R):
+            continue
+        t = term_of(a, tr)
+        if t is None:
+            continue                      # a plain (re)initialisation such as `IrrNet = 0`
+        nid = flow.stmt_node.get(id(a))
+        if nid is None:
+            continue
+        n += 1
+        construct = norm(a)
+        tnf = nf(t, tr, nid)
+        ok, why = False, "no test of the total requirement against 0 on the way to the accumulation"
+        for tn, lab in cfg.transitive_control_deps(nid):
+            c = cfg.nodes[tn].ast
+            if cfg.nodes[tn].kind != "test" or lab is not True or not (isinstance(c, ast.Compare) and len(c.ops) == 1 and isinstance(c.ops[0], (ast.Gt, ast.GtE))
+                                                                         and isinstance(c.comparators[0], ast.Constant) and c.comparators[0].value == 0):
+                continue
+            left = c.left
+            if A.equal(nf(left, tr, tn), tnf):
+                ok, why = True, "each term is tested against 0 before it is added"
+                break
+            callee = prog.resolve_call(tr, left) if isinstance(left, ast.Call) else None
+            if hasattr(callee, "params"):
+                # the callee returns a local that accumulates a term with the same normal form
+                cflow = flow_of(callee)
+                crets = [r for r in walk_no_nested(callee.node) if isinstance(r, ast.Return) and isinstance(r.value, ast.Name)]
+                for r in crets:
+                    for b in walk_no_nested(callee.node):
+                        if isinstance(b, ast.Assign) and len(b.targets) == 1 and isinstance(b.targets[0], ast.Name) and b.targets[0].id == r.value.id:
+                            bt = term_of(b, callee)
+                            if bt is not None and A.equal(nf(bt, callee, cflow.stmt_node.get(id(b))), tnf):
+                                ok, why = True, f"under `{norm(c)[:70]}`: {callee.name} returns the sum of the same terms"
+                if not ok:
+                    why = f"the total tested (`{norm(left)[:50]}`) is not the sum of the terms that are accumulated"
+        if ok:
+            chk.ok("C13.k", where, construct, why)
+        else:
+            chk.violation("C13.k", where, construct, f"the net-irrigation requirement is accumulated from terms that are negative for compartments wetter than their critical "
+                          f"content, and {why}: with the root zone within rounding of the trigger the reported daily requirement is negative "
+                          "(Sunflower, NetIrrSMT=90: -0.017 mm)", loc=tr.loc(a))
+    chk.floor("C13.k", n, 1, "accumulations of the net-irrigation requirement in transpiration")
+
+
 def run(chk, prog, tier):
+    from ._timeunits import time_units
+    from ..common import STEP_FN as _STEP, RESET_FN as _RESET
+    chk.floor("C13.l", time_units(chk, prog, "C13.l", set(prog.reachable_from(_STEP)) | set(prog.reachable_from(_RESET)) | {_STEP}), 120,
+              "expressions and stores carrying a time unit below the daily step and the season reset")
     # ------------------------------------------------------------ C13.j (what "growing season" means for C13.a: shared with C07.l)
     from .c07 import season_flag_guards
     season_flag_guards(chk, prog, "C13.j")
+    rule_k(chk, prog)
     # ------------------------------------------------------------ C13.a
     configs = [{}, {"IrrMngt.irrigation_method": 0}, {"IrrMngt.irrigation_method": 4}]
     irr_name, irrday_name = step_local(prog, "irr"), step_local(prog, "irr_day")
